@@ -196,9 +196,7 @@ func VerifC03RootDamage() {
 		vCover("byte-replaced")
 		pos := []int{0, KeySize - 1, len(rb) - KeySize, len(rb) - 1}[vChoose("pos", 4)]
 		nb := append([]byte{}, rb...)
-		v := vByte("newByte", 0, 255)
-		vAssume(v != rb[pos])
-		nb[pos] = v
+		nb[pos] = rb[pos] ^ vByte("flippedBits", 1, 255) // any other byte value (relative: digests differ between the hash model and the native run)
 		store.data[key.String()] = nb
 	case 1:
 		vCover("truncated")
